@@ -19,8 +19,7 @@
 #ifndef __GIVARO_gfq_kronecker_H
 #define __GIVARO_gfq_kronecker_H
 
-#include "givaro/givzpz.h"
-#include "givaro/givzpzInt.h"
+#include "givaro/modular.h"
 #include "givaro/gfq.h"
 #include "givaro/givpower.h"
 #include <limits>
@@ -49,7 +48,7 @@ public:
     typedef Rep* Array;
     typedef const Rep* constArray;
 
-    typedef ModularRandIter< Father_t , Rep> RandIter;
+    typedef typename Father_t::RandIter RandIter;
 
     GFqKronecker(): Father_t() {}
 
